@@ -76,6 +76,18 @@ def gen_case(rng, D=2, group="B"):
                 seed=rng.randint(0, 10 ** 6), ngs=2)
 
 
+def corner_cases(D=2):
+    """deterministic cases that every run includes: every bias mode on a layer whose targets are a true scalar, a pseudoscalar
+    (reachable only through vector / pseudovector inputs) and a pseudovector, with several input types feeding the same target"""
+    out = []
+    for i, mode in enumerate(["auto", "mean", "scalar", "true", "false"]):
+        cfg = dict(N=[2, 2] if D == 2 else [2, 2, 1], M=[3] * D, torus=[True] * D if i % 2 == 0 else [False] * D,
+                   mode="TORUS" if i % 2 == 0 else "SAME", pad=[[0, 0]] * D, stride=[1] * D, rdil=[1] * D, ldil=[1] * D)
+        out.append(dict(D=D, cfg=cfg, ins=[[[1, 0], 2], [[0, 1], 1], [[0, 0], 1]], tgt=[[[0, 1], 2], [[0, 0], 1], [[1, 1], 1]], mode=mode,
+                        group="B", kmax=2, M=3, seed=1000 + i, ngs=2))
+    return out
+
+
 def realise(case):
     """fill in data (needs the code's bank): x, W, b, bank, gs.  Returns the JSON-able spec case."""
     rng = random.Random(case["seed"])
